@@ -381,7 +381,51 @@ def run_embedded(res, spec_, rng):
             res.violation("C08:tables-differ:embedded-after-unplug", f"embedded graph after unplugging {want}, after save+load {tables(in3)}", case)
 
 
+def run_deep(res, spec_, rng):
+    """A graph at the bottom of a tower of MetaModules (20-30 levels; each level carries a small graph of its own): every
+    level comes back with its graph."""
+    import rv.api as api
+    for s in range(2 if spec_["tier"] == "quick" else 6):
+        depth = rng.randint(18, 30)
+        graphs = []
+        proj = None
+        for level in range(depth):
+            p = api.Project()
+            if proj is not None:
+                p.new_module(api.m.MetaModule, project=proj)
+            a, b = p.new_module(api.m.Amplifier), p.new_module(api.m.Filter)
+            p.connect(a, b)
+            p.connect(b, p.output)
+            if rng.random() < 0.5:
+                p.connect(a, p.output)
+                p.connect(a, ~b)
+            graphs.append(tables(p))
+            proj = p
+        res.count("deep_towers")
+        res.hist("tower_depths", depth)
+        res.case(("deep", depth, s))
+        case = {"origin": "deep", "depth": depth}
+        try:
+            q = workload.load(proj.read())
+        except Exception as e:
+            res.violation(f"C08:deep-unloadable:{workload.exc_key(e)}", f"{depth} nested MetaModules do not save/load: {e!r}", case)
+            continue
+        cur = q
+        for level in range(depth - 1, -1, -1):
+            res.count("consistency_evaluations")
+            if monitors.links_consistent(cur) or tables(cur) != graphs[level]:
+                res.violation("C08:tables-differ:deep", f"graph {depth - 1 - level} levels below the top: before {graphs[level]}, after {tables(cur)}", dict(case, level=depth - 1 - level))
+                break
+            metas = [m for m in cur.modules if m is not None and m.mtype == "MetaModule"]
+            if level and not metas:
+                res.violation("C08:tables-differ:deep", f"the MetaModule {depth - level} levels below the top is gone", dict(case, level=depth - level))
+                break
+            cur = metas[0].project if metas else None
+
+
 def run_shard(spec_, res):
+    if spec_.get("part") == "embedded":
+        run_deep(res, spec_, random.Random(spec_["seed"] + 5))
     if spec_.get("part") == "random" and spec_.get("n_wide"):
         run_wide(res, spec_, random.Random(spec_["seed"] + 77))
     rng = random.Random(spec_["seed"])
